@@ -261,7 +261,8 @@ class StructureMetaType(MetaType):
             offset += -offset & (alignment - 1)
 
         # The structure size is whatever the currently calculated offset is
-        return offset, alignment
+        # A structure without fields has no alignment requirement, 0 would turn the alignment arithmetic into a rewind
+        return offset, alignment or 1
 
     def _read(cls, stream: BinaryIO, context: dict[str, Any] | None = None) -> Self:  # type: ignore
         bit_buffer = BitBuffer(stream, cls.cs.endian)
@@ -476,7 +477,7 @@ class UnionMetaType(StructureMetaType):
             # E.g. offset = 3; alignment = 8; -offset & (alignment - 1) = 5
             size += -size & (alignment - 1)
 
-        return size, alignment
+        return size, alignment or 1
 
     def _read_fields(
         cls, stream: BinaryIO, context: dict[str, Any] | None = None
